@@ -34,7 +34,8 @@ fn one(out: &mut Out, fi: usize, data: &[u8], w: u32, h: u32, rect: (u32, u32, u
     let mut buf = vec![prefill; buflen];
     let block = match PixelInfo::from(format) { PixelInfo::Block(b) if rw > 0 && rh > 0 => Some(b), _ => None };
     let fixed = match PixelInfo::from(format) { PixelInfo::Fixed { bytes_per_pixel } if rw > 0 && rh > 0 => Some(bytes_per_pixel as usize), _ => None };
-    if block.is_some() || fixed.is_some() { dds::verif_hooks::start_block_trace(); }
+    let biplanar = match PixelInfo::from(format) { PixelInfo::BiPlanar(b) if rw > 0 && rh > 0 => Some(b), _ => None };
+    if block.is_some() || fixed.is_some() || biplanar.is_some() { dds::verif_hooks::start_block_trace(); }
     let res = {
         let view = ImageViewMut::new_with(&mut buf[offset..offset + need], pitch, Size::new(rw, rh), color);
         let Some(view) = view else { println!("IMPL-VIOLATION view refused: {name} {rw}x{rh} pitch {pitch}"); return; };
@@ -64,6 +65,25 @@ fn one(out: &mut Out, fi: usize, data: &[u8], w: u32, h: u32, rect: (u32, u32, u
             out.count("trace_cases"); out.count(if conv == 1 { "trace_conv" } else { "trace_native" });
             out.case(51, &targs, &obs);
         } else if let Some(Ok(())) = &res { println!("IMPL-VIOLATION no block trace: {name} {w}x{h} rect {rect:?}"); }
+    }
+    // tag 53: the ProcessBiPlanarFn calls of the bi-planar paths against model/BiPlanarPath.v
+    if let Some(b) = biplanar {
+        let trace = dds::verif_hooks::take_block_trace();
+        if let (Some(Ok(())), Some(first)) = (&res, trace.first()) {
+            if first[0] == 3 && first.len() == 11 {
+                let (bbpp, conv) = (first[9], first[10]);
+                let (sx, sy) = b.plane2_sub_sampling();
+                let targs: Vec<i128> = vec![if use_full { 0 } else { 1 }, b.plane1_bytes_per_pixel() as i128, b.plane2_bytes_per_sample() as i128, sx as i128, sy as i128,
+                    conv as i128, bbpp as i128, bpp as i128, w as i128, h as i128, rx as i128, ry as i128, rw as i128, rh as i128];
+                let mut obs: Vec<i128> = Vec::new();
+                for e in &trace {
+                    let e: &[usize] = if e[0] == 3 && e.len() == 11 && (e[9], e[10]) == (bbpp, conv) { &e[..9] } else { &e[..] };
+                    obs.push(e.len() as i128); obs.extend(e.iter().map(|&v| v as i128));
+                }
+                out.count("biplanar_trace_cases"); out.count(if conv == 1 { "biplanar_trace_conv" } else { "biplanar_trace_native" });
+                out.case(53, &targs, &obs);
+            }
+        } else if let Some(Ok(())) = &res { println!("IMPL-VIOLATION no bi-planar trace: {name} {w}x{h} rect {rect:?}"); }
     }
     // tag 52: the ProcessPixelsFn calls of the uncompressed paths against model/PixelPath.v (the specialised whole-image
     // copies make no such call: nothing to compare then)
